@@ -135,7 +135,12 @@ theorem StepR.srcs {sh th o} (h : StepR sh th o) (S : Reg → Prop) (hregs : ∀
     refine ⟨?_, by simp, .inl rfl⟩
     simp only [List.forall_mem_cons]
     exact ⟨hnew _ _ _, by simp⟩
-  case lock r a f fs hpc' hfr' hfree =>
+  case lockDeadSync r a f fs hpc' hfr' hj hfree hl hsh =>
+    rw [hfr'] at hfr
+    exact hsh.srcs S (hfr f (by simp)) (fun g hg => hfr g (by simp [hg]))
+  case lockDeadJob r a j f hpc' hj hfr' hfree hl =>
+    exact ⟨by simp, by simp, .inl rfl⟩
+  case lock r a f fs hpc' hfr' hfree hl =>
     rw [hfr'] at hfr
     refine ⟨?_, by simp, .inl (by simp)⟩
     simp only [List.forall_mem_cons]
@@ -204,6 +209,7 @@ theorem StepR.new_cases {sh th o} (h : StepR sh th o) : o.new = [] ∨ ∃ j, o.
   case filterRej hsh => exact .inl hsh.new_nil
   case claimed hsh => exact .inl hsh.new_nil
   case exit hsh => exact .inl hsh.new_nil
+  case lockDeadSync hsh => exact .inl hsh.new_nil
   case spawn => exact .inr ⟨_, rfl⟩
   all_goals exact .inl rfl
 
@@ -356,9 +362,18 @@ theorem StepR.thP {sh th o} (h : StepR sh th o) (hok : ThOK th) (hi : ThP th) : 
   case enterPub r f fs ty v more hpc hfr hb =>
     rw [hfr] at hbot
     exact ⟨⟨by simp, fun hj => (BotOK.head (f' := { f with body := more }) (hbot hj) (.inl rfl)).push⟩, by simp⟩
-  case lock r a f fs hpc hfr hfree =>
+  case lock r a f fs hpc hfr hfree hl =>
     rw [hfr] at hbot
     exact ⟨⟨by simp, fun hj => (hbot hj).head (.inl rfl)⟩, by simp⟩
+  case lockDeadSync r a f fs hpc hfr hj hfree hl hsh =>
+    rw [hfr] at hbot
+    refine ⟨hsh.thP hbot ?_, by simp [hsh.new_nil]⟩
+    intro hj'
+    rcases hj with hj | hj
+    · simp [hj] at hj'
+    · exact hj
+  case lockDeadJob r a j f hpc hj hfr hfree hl =>
+    exact ⟨⟨by simp, fun _ g hg => by simp at hg⟩, by simp⟩
   case retire f fs hpc hfr =>
     rw [hfr] at hbot
     refine ⟨⟨?_, fun hj => (hbot hj).head (.inr rfl)⟩, by simp⟩
@@ -465,7 +480,13 @@ theorem StepR.pendEff {sh th o} (h : StepR sh th o) (hok : ThOK th) (hp : ThP th
     refine ⟨.inl ?_, fun h1 h2 => absurd h1 h2⟩
     rw [e0 f fs hfr]
     simp [pend, clm]
-  case lock r a f fs hpc hfr hfree =>
+  case lockDeadSync r a f fs hpc hfr hj hfree hl hsh => rw [e0 f fs hfr]; exact ⟨.inl (hsh.pendEff rid).1, (hsh.pendEff rid).2⟩
+  case lockDeadJob r a j f hpc hj hfr hfree hl =>
+    refine ⟨.inl ?_, fun h1 h2 => absurd h1 h2⟩
+    have : f.claimed = [] := hp.bot (by simp [hj]) f (by simp [hfr])
+    rw [e0 f [] hfr]
+    simp [pend, clm, this]
+  case lock r a f fs hpc hfr hfree hl =>
     refine ⟨.inl ?_, fun h1 h2 => absurd (by simpa using h1) h2⟩
     rw [e0 f fs hfr]
     simp [pend, clm]
@@ -606,7 +627,9 @@ theorem StepR.onceLB {sh th o} (h : StepR sh th o) (hs : step sh th = some o) (h
     obtain ⟨h1, h2⟩ := afterClaim_live (th := th) (fs := fs) (r := r0) (obs := []) (live_of_nil hc f.ctx) (3 * f.rest.length + 3) rid
     simp only [afterClaim_new, wsum_nil, hc', exBit, h2]
     omega
-  case lock r a f fs hpc hfr hfree =>
+  case lockDeadSync r a f fs hpc hfr hj hfree hl hsh => rw [live_of_nil hc] at hl; cases hl
+  case lockDeadJob r a j f hpc hj hfr hfree hl => rw [live_of_nil hc] at hl; cases hl
+  case lock r a f fs hpc hfr hfree hl =>
     have hc : carry rid th = onceBit r rid := by simp [carry, hpc]
     rw [hc]; simp only [wsum_nil, carry, exBit, noteEnter_enteredOnce, noteEnter_executed]
     unfold onceBit
